@@ -107,6 +107,21 @@ func c19Round(c *run.C) {
 	regV := (&gen.ValueGen{R: r, O: gen.GoValueOpts{MaxLen: 3}}).Value(regT, 0)
 	regOut := make([][]byte, G)
 	regErr := make([]string, G)
+	// ... and values whose types have inline interface / Folder fields (folded
+	// through a helper visitor that the library creates per inlined value)
+	inlTypes := []reflect.Type{reflect.TypeOf(zoo.InlineOuter{}), reflect.TypeOf(zoo.InlineThenPlain{}), reflect.TypeOf(zoo.InlineIface{}), reflect.TypeOf(zoo.InlineFolder{})}
+	inlObjs := []reflect.Type{reflect.TypeOf(map[string]interface{}{}), reflect.TypeOf(zoo.InlineInner{}), reflect.TypeOf(zoo.Plain{}), reflect.TypeOf(zoo.InlineCarrier{}), reflect.TypeOf(map[string]int{})}
+	var inlV []reflect.Value
+	for _, t := range inlTypes {
+		for try := 0; try < 20; try++ {
+			v := (&gen.ValueGen{R: r, O: gen.GoValueOpts{MaxLen: 3, IfaceTypes: inlObjs}}).Value(t, 0)
+			if _, err := model.Fold(v, nil); err == nil && !holdsNilPtrInIface(v, 0) {
+				inlV = append(inlV, v)
+				break
+			}
+		}
+	}
+	inlOut := make([][][]byte, G)
 
 	// per-goroutine seeds drawn up front: the generator itself is not shared
 	seeds := make([]uint64, G)
@@ -213,6 +228,29 @@ func c19Round(c *run.C) {
 						regOut[g] = append([]byte{}, rw.Buf...)
 					} else if string(regOut[g]) != string(rw.Buf) {
 						regErr[g] = fmt.Sprintf("first use wrote %s, cached use %s", regOut[g], rw.Buf)
+					}
+				}
+			}()
+			func() {
+				defer func() {
+					if rec := recover(); rec != nil && regErr[g] == "" {
+						regErr[g] = fmt.Sprintf("inline fold panic: %v", rec)
+					}
+				}()
+				var iw mon.CountingWriter
+				iit, err := gotype.NewIterator(codec.JSON.NewVisitor(&iw, codec.JSONOpts{IgnoreInvalidFloat: true}))
+				if err != nil {
+					regErr[g] = err.Error()
+					return
+				}
+				for rep := 0; rep < 3; rep++ {
+					for _, v := range inlV {
+						iw.Buf = iw.Buf[:0]
+						if err := iit.Fold(v.Interface()); err != nil {
+							regErr[g] = fmt.Sprintf("folding %s: %v", v.Type(), err)
+							return
+						}
+						inlOut[g] = append(inlOut[g], append([]byte{}, iw.Buf...))
 					}
 				}
 			}()
@@ -328,6 +366,26 @@ func c19Round(c *run.C) {
 			c.Violationf("concurrent-mismatch", "concurrent:registered-folder-leak", "goroutine %d of %d (folder for regA registered: %v) wrote %s, an iterator of the same configuration running alone writes %s", g, G, g%2 == 0, regOut[g], regRef[g%2])
 			return
 		}
+	}
+	// inline values: every goroutine's output must decode to the model's value
+	for g := 0; g < G; g++ {
+		for i, out := range inlOut[g] {
+			v := inlV[i%len(inlV)]
+			want, _ := model.Fold(v, nil)
+			rr := refDecode("json", out)
+			if rr.Status != 0 || len(rr.Values) != 1 {
+				c.Violationf("concurrent-mismatch", "concurrent:inline:unreadable", "goroutine %d of %d: folding %s concurrently wrote an unreadable document: %s", g, G, v.Type(), clipb(out))
+				return
+			}
+			got := rr.Values[0]
+			markUnordered(&got)
+			markUnordered(&want)
+			if d := val.Equal(val.Norm("json", want, true), got, val.NumJSON); d != "" {
+				c.Violationf("concurrent-mismatch", "concurrent:inline:value", "goroutine %d of %d: folding %s concurrently wrote another value than the documented mapping: %s\ndoc=%s", g, G, v.Type(), d, clipb(out))
+				return
+			}
+		}
+		c.Observe("concurrent_inline_folds", len(inlOut[g]))
 	}
 	c.Observe("differently_configured_iterator_folds", 2*G)
 	// verdicts (main goroutine only)
